@@ -90,7 +90,7 @@ def renderStep (r : Res Frag) (conv : String) : String :=
     "I " ++ renderSentence s ++ (if conv = "o" then " conv=none" else " conv=err")
   | .err (.checksum e f) => "E cks " ++ toString e ++ " " ++ toString f
   | .err _ => "E nmea"
-  | .panic p => "panic " ++ reprStr p
+  | .panic _ => "panic"
 
 def cfgOf (s : String) : Cfg :=
   if s = "noalloc" then .noalloc else if s = "alloc" then .alloc else .std
@@ -128,7 +128,7 @@ def handle (s : St) (line : String) : St × String :=
       (s, match unarmor s.cfg bs f with
         | .ok out => "ok " ++ hexOfBytes out
         | .err _ => "err"
-        | .panic p => "panic " ++ reprStr p)
+        | .panic _ => "panic")
     | _, _ => (s, "bad-op")
   | ["M", hex] =>
     match bytesOfHex hex with
@@ -136,7 +136,7 @@ def handle (s : St) (line : String) : St × String :=
       (s, match parseMessage s.cfg bs with
         | .ok m => "ok " ++ renderMsg m
         | .err _ => "err"
-        | .panic p => "panic " ++ reprStr p)
+        | .panic _ => "panic")
     | none => (s, "bad-op")
   | ["T", name, code] =>
     match code.toNat? with
@@ -152,7 +152,7 @@ def handle (s : St) (line : String) : St × String :=
         (s, match f c with
           | .ok v => "ok " ++ renderVal v
           | .err _ => "err"
-          | .panic p => "panic " ++ reprStr p)
+          | .panic _ => "panic")
       | none, none => (s, "bad-op")
     | none => (s, "bad-op")
   | ["N", k] =>
